@@ -161,6 +161,21 @@ var transSpecs = []transSpec{
 		{file: "zapcore/entry.go", recv: "EntryCaller", name: "TrimmedPath", lean: "TrimmedPath", fields: callerFields,
 			calls: merge(pooledBufferCalls, stdCalls, map[string]shim{"recv.FullPath": {kind: "fun", f: "FullPath", res: []string{"string"}}})},
 	}},
+	{table: "TransEscape", funcs: []transFunc{
+		// the generic safeAppendStringLike at its instance S = string (safeAddString); the []byte instance
+		// (safeAddByteString) is the same text with the same meaning of every operation used
+		{file: "zapcore/json_encoder.go", name: "safeAppendStringLike", lean: "safeAppendStringLike",
+			types: map[string]string{"S": "string", "*buffer.Buffer": "Buffer",
+				"func(*buffer.Buffer, S)": "AppendFn", "func(S) (rune, int)": "DecodeFn"},
+			consts: map[string]string{"utf8.RuneSelf": "128", "utf8.RuneError": "65533", "_hex": "str:0123456789abcdef"},
+			inout:  []string{"buf"},
+			calls: merge(bufferCalls, map[string]shim{
+				// appendTo(buf, x) is (*buffer.Buffer).AppendString / AppendBytes: buf = buf ++ x
+				"AppendFn()": {kind: "mutarg0", f: "append..."},
+				// decodeRune(x) is utf8.DecodeRuneInString / DecodeRune: (rune, size), modelled by Esc.validLen
+				"DecodeFn()": {kind: "extstmt", f: "decodeRune", res: []string{"i32", "int"}},
+			})},
+	}},
 	{table: "TransJsonSep", funcs: []transFunc{
 		{file: "zapcore/json_encoder.go", recv: "jsonEncoder", name: "addElementSeparator", lean: "addElementSeparator",
 			fields: jsonEncFields, calls: bufferCalls},
